@@ -437,7 +437,8 @@ def RA6 : α := 0.02215608465608465608
 
 def decO (d : Option Dec) : Option α := d.map Dec.toNum
 
-def deriveConstants (json : Obj α) : Obj α :=
+/-- deriveConstants.js, the datum and ellipsoid table lookups -/
+def deriveTables (json : Obj α) : Obj α :=
   -- datum table
   let json :=
     match json.datumCode with
@@ -452,35 +453,76 @@ def deriveConstants (json : Obj α) : Obj α :=
       else json
     | none => json
   -- `if (!json.a)`: extend(json, ellipse) copies every defined property of the table row
-  let json :=
-    if !truthyO json.a then
-      let row := match json.ellps.bind (lookupEll Gen.jsEllipsoids) with
-        | some r => r
-        | none => (lookupEll Gen.jsEllipsoids "WGS84").getD default
-      let json := match decO row.a with | some v => { json with a := some v } | none => json
-      let json := match decO row.b with | some v => { json with b := some v } | none => json
-      match decO row.rf with | some v => { json with rf := some v } | none => json
-    else json
-  let json := if truthyO json.rf && !truthyO json.b then
-      { json with b := some ((1.0 - 1.0 / num json.rf) * num json.a) } else json
+  if !truthyO json.a then
+    let row := match json.ellps.bind (lookupEll Gen.jsEllipsoids) with
+      | some r => r
+      | none => (lookupEll Gen.jsEllipsoids "WGS84").getD default
+    let json := match decO row.a with | some v => { json with a := some v } | none => json
+    let json := match decO row.b with | some v => { json with b := some v } | none => json
+    match decO row.rf with | some v => { json with rf := some v } | none => json
+  else json
+
+/-- the properties the middle of deriveConstants.js reads or writes -/
+structure JC (α : Type) where
+  a : Option α
+  b : Option α
+  rf : Option α
+  k0 : Option α
+  R_A : Bool
+  sphere : Bool
+  a2 : α
+  b2 : α
+  es : α
+  e : α
+  ep2 : α
+
+/-! deriveConstants.js from `if (json.rf && !json.b)` to the `k0` default, statement by statement -/
+
+/-- `if (json.rf && !json.b) { json.b = (1.0 - 1.0 / json.rf) * json.a; }` -/
+def dc1 (json : JC α) : JC α :=
+  if truthyO json.rf && !truthyO json.b then
+    { json with b := some ((1.0 - 1.0 / num json.rf) * num json.a) } else json
+/-- `if (json.rf === 0 || Math.abs(json.a - json.b) < EPSLN) { json.sphere = true; json.b = json.a; }` -/
+def dc2 (json : JC α) : JC α :=
   let rfIsZero := match json.rf with | some v => eq v 0 | none => false
-  let json := if rfIsZero || lt (abs (num json.a - num json.b)) EPSLN then
-      { json with sphere := true, b := json.a } else json
-  let a := num json.a
-  let b := num json.b
-  let a2 := a * a
-  let b2 := b * b
-  let es := (a2 - b2) / a2
-  let e := sqrt es
-  let json := { json with a2 := a2, b2 := b2, es := es, e := e }
-  let json := if json.R_A then
-      let a := a * (1 - es * (SIXTH + es * (RA4 + es * RA6)))
-      { json with a := some a, a2 := a * a, b2 := b * b, es := 0 }
-    else json
-  let json := { json with ep2 := (json.a2 - json.b2) / json.b2 }
-  let json := if !truthyO json.k0 then { json with k0 := some 1.0 } else json
+  if rfIsZero || lt (abs (num json.a - num json.b)) EPSLN then
+    { json with sphere := true, b := json.a } else json
+/-- `json.a2 = json.a * json.a;` -/
+def dc3 (json : JC α) : JC α := { json with a2 := num json.a * num json.a }
+/-- `json.b2 = json.b * json.b;` -/
+def dc4 (json : JC α) : JC α := { json with b2 := num json.b * num json.b }
+/-- `json.es = (json.a2 - json.b2) / json.a2;` -/
+def dc5 (json : JC α) : JC α := { json with es := (json.a2 - json.b2) / json.a2 }
+/-- `json.e = Math.sqrt(json.es);` -/
+def dc6 (json : JC α) : JC α := { json with e := sqrt json.es }
+/-- `if (json.R_A) { json.a *= 1 - json.es * (SIXTH + json.es * (RA4 + json.es * RA6)); json.a2 = json.a * json.a; json.b2 = json.b * json.b; json.es = 0; }` -/
+def dc7 (json : JC α) : JC α :=
+  if json.R_A then
+    let json := { json with a := some (num json.a * (1 - json.es * (SIXTH + json.es * (RA4 + json.es * RA6)))) }
+    let json := { json with a2 := num json.a * num json.a }
+    let json := { json with b2 := num json.b * num json.b }
+    { json with es := 0 }
+  else json
+/-- `json.ep2 = (json.a2 - json.b2) / json.b2;` -/
+def dc8 (json : JC α) : JC α := { json with ep2 := (json.a2 - json.b2) / json.b2 }
+/-- `if (!json.k0) { json.k0 = 1.0; }` -/
+def dc9 (json : JC α) : JC α := if !truthyO json.k0 then { json with k0 := some 1.0 } else json
+
+def deriveCoreS (json : JC α) : JC α := dc9 (dc8 (dc7 (dc6 (dc5 (dc4 (dc3 (dc2 (dc1 json))))))))
+
+/-- the same on the projection object -/
+def deriveCore (json : Obj α) : Obj α :=
+  let r := deriveCoreS { a := json.a, b := json.b, rf := json.rf, k0 := json.k0, R_A := json.R_A, sphere := json.sphere,
+                         a2 := json.a2, b2 := json.b2, es := json.es, e := json.e, ep2 := json.ep2 }
+  { json with a := r.a, b := r.b, rf := r.rf, k0 := r.k0, R_A := r.R_A, sphere := r.sphere,
+              a2 := r.a2, b2 := r.b2, es := r.es, e := r.e, ep2 := r.ep2 }
+
+/-- deriveConstants.js, the axis default and the datum object -/
+def deriveTail (json : Obj α) : Obj α :=
   let json := if json.axis.isNone || json.axis == some "" then { json with axis := some "enu" } else json
   if json.datum.isNone then { json with datum := some (mkDatum json) } else json
+
+def deriveConstants (json : Obj α) : Obj α := deriveTail (deriveCore (deriveTables json))
 
 /-! ## projections/*.js -/
 
